@@ -124,6 +124,10 @@ func (t *Transport) RoundTrip(req *http.Request) (*http.Response, error) {
 		b, _ := io.ReadAll(req.Body)
 		a.ReqBody = string(b)
 	}
+	if t.Ctx.Cancelled() {
+		// net/http does not send a request whose context is already done
+		return nil, t.Ctx.Err()
+	}
 	o, ok := t.Next(len(t.Attempts))
 	if !ok {
 		t.Ended = true
